@@ -430,9 +430,9 @@ func (e *Exec) checkFrame(st *State, key string, ref Term, idx Term, isElem bool
 			continue
 		}
 		if isElem && m.isElem {
-			allowed = append(allowed, And(Eq(ref, m.ref), Le(m.lo, idx), Lt(idx, m.hi)))
+			allowed = append(allowed, And(m.when(), Eq(ref, m.ref), Le(m.lo, idx), Lt(idx, m.hi)))
 		} else if !isElem && !m.isElem {
-			allowed = append(allowed, Eq(ref, m.ref))
+			allowed = append(allowed, And(m.when(), Eq(ref, m.ref)))
 		}
 	}
 	e.oblige(st, "frame", "", Or(allowed...), "store allowed by modifies: "+key, p)
@@ -567,6 +567,9 @@ func (e *Exec) execTypeSwitch(st *State, s *ast.TypeSwitchStmt, label string) *S
 		taken := rest.clone()
 		e.addPC(taken, cond)
 		e.addPC(rest, Not(cond))
+		if len(c.List) == 1 && single != nil {
+			taken.learnKind(v, e.kindCode(single))
+		}
 		if obj := e.info.Implicits[c]; obj != nil {
 			if len(c.List) == 1 && single != nil {
 				taken.vars[obj] = CRef(v)
